@@ -109,8 +109,10 @@ def build_state(app, rng):
     return n
 
 
-QUERIES = ['resources=VCPU:1', 'resources=VCPU:1,MEMORY_MB:64', 'resources=DISK_GB:10',
+QUERIES = ['resources=VCPU:1', 'resources=VCPU:1,MEMORY_MB:64', 'resources=DISK_GB:10', 'resources=VCPU:1,DISK_GB:10',
            'resources1=VCPU:1&resources2=DISK_GB:5&group_policy=none', 'resources=VCPU:2&resources_D=DISK_GB:1&group_policy=none']
+# (microversion, queries usable there): limit exists from 1.16, numbered groups from 1.25, string suffixes from 1.33
+VERSIONED = [(39, QUERIES), (28, QUERIES[:5]), (17, QUERIES[:4])]
 
 
 def canon_ar(ar):
@@ -123,8 +125,9 @@ def http_stream(rng, n_states, seeds, viols, stats, samples):
             app = impl.App(overrides={('placement', 'randomize_allocation_candidates'): randomize})
             srng = random.Random(rng.random())
             build_state(app, srng)
-            for q in QUERIES:
-                base = app.request('GET', '/allocation_candidates?' + q, version='1.39', headers=SVC)
+            for ver, q in [(ver, q) for ver, qs in VERSIONED for q in qs]:
+                VER = '1.%d' % ver
+                base = app.request('GET', '/allocation_candidates?' + q, version=VER, headers=SVC)
                 if base.status != 200:
                     continue
                 full = [canon_ar(a) for a in base.json['allocation_requests']]
@@ -138,14 +141,14 @@ def http_stream(rng, n_states, seeds, viols, stats, samples):
                 for limit in range(1, M + 2):
                     for seed in seeds:
                         random.seed(seed)
-                        r = app.request('GET', '/allocation_candidates?%s&limit=%d' % (q, limit), version='1.39', headers=SVC)
+                        r = app.request('GET', '/allocation_candidates?%s&limit=%d' % (q, limit), version=VER, headers=SVC)
                         stats['evaluations'] += 1
-                        stats['distinct'].add((si, randomize, q, limit, seed if randomize else 0))
+                        stats['distinct'].add((si, randomize, ver, q, limit, seed if randomize else 0))
                         if r.status != 200:
                             viols.append(({'kind': 'limit', 'query': q, 'limit': limit}, 'limited request answered %d' % r.status))
                             continue
                         got = [canon_ar(a) for a in r.json['allocation_requests']]
-                        where = {'kind': 'limit', 'query': q, 'limit': limit, 'randomize': randomize, 'seed': seed, 'state_seed': si}
+                        where = {'kind': 'limit', 'query': q, 'version': ver, 'limit': limit, 'randomize': randomize, 'seed': seed, 'state_seed': si}
                         if len(got) != min(limit, M):
                             viols.append((where, 'limit=%d returned %d requests, unlimited has %d' % (limit, len(got), M)))
                         if len(set(got)) != len(got):
@@ -154,13 +157,15 @@ def http_stream(rng, n_states, seeds, viols, stats, samples):
                             viols.append((where, 'limited result contains a request that is not in the unlimited result'))
                         named = {rp for a in r.json['allocation_requests'] for rp in a['allocations']}
                         named |= {rp for a in r.json['allocation_requests'] for l in a.get('mappings', {}).values() for rp in l}
+                        if ver < 12:
+                            named = set()
                         if not named <= set(r.json['provider_summaries']):
                             viols.append((where, 'provider summaries do not cover the providers named by the limited result'))
                         for rp, s in r.json['provider_summaries'].items():
                             if base.json['provider_summaries'].get(rp) != s:
                                 viols.append((where, 'summary of %s differs from the unlimited one' % rp))
                         if not randomize:
-                            r2 = app.request('GET', '/allocation_candidates?%s&limit=%d' % (q, limit), version='1.39', headers=SVC)
+                            r2 = app.request('GET', '/allocation_candidates?%s&limit=%d' % (q, limit), version=VER, headers=SVC)
                             if r2.json['allocation_requests'] != r.json['allocation_requests']:
                                 viols.append((where, 'identical request returned a different ordered list'))
                             if got != full[:limit]:
@@ -170,13 +175,13 @@ def http_stream(rng, n_states, seeds, viols, stats, samples):
                 if randomize:
                     for seed in seeds:
                         random.seed(seed)
-                        r = app.request('GET', '/allocation_candidates?' + q, version='1.39', headers=SVC)
+                        r = app.request('GET', '/allocation_candidates?' + q, version=VER, headers=SVC)
                         got = [canon_ar(a) for a in r.json['allocation_requests']]
                         if sorted(got) != sorted(full):
                             viols.append(({'kind': 'limit', 'query': q, 'randomize': True, 'seed': seed},
                                           'randomised unlimited result is not a permutation of the same set'))
                 else:
-                    r = app.request('GET', '/allocation_candidates?' + q, version='1.39', headers=SVC)
+                    r = app.request('GET', '/allocation_candidates?' + q, version=VER, headers=SVC)
                     if r.json['allocation_requests'] != base.json['allocation_requests']:
                         viols.append(({'kind': 'limit', 'query': q}, 'repeating an identical request changed the order'))
             app.close()
